@@ -99,6 +99,7 @@ def run(ctx, facts):
     C13.require_verified_reset(ctx, facts, [C13.SMH, C13.SMH2], "REINIT")
     for fid in [SMH + "sketch"] + ([SMH2 + "sketch"] if has2 else []):
         C04.skip_rule(ctx, facts, fid)
+    C04.nohash_rule(ctx, facts)
     C04.deleg_slice(ctx, facts, SMH + "sketch_slice")
     if has2:
         C04.deleg_slice(ctx, facts, SMH2 + "sketch_slice")
